@@ -3,9 +3,11 @@ import collections
 from common import proof_audit, TRUSTED_BASE
 from gen import Gen
 from seqdiff import run_seq
+from seqprop import audit, coverage
 
 LEVEL = "translation_validation"
-COQ_TARGETS = ()
+COQ_TARGETS = ("props/C01.vo",)
+THEOREMS = ['C01_write_point_read_partial', 'C01_gc_keeps_newest_partial']
 THEOREMS = []
 
 
@@ -21,18 +23,15 @@ def programs(seed, n, nops):
 
 def run(rep, tier, seed, build):
     n, nops = (240, 45) if tier == "quick" else (4000, 120)
+    audit(rep, "props/C01.v", THEOREMS, build)
     progs = programs(seed, n, nops)
     res = run_seq(rep, progs)
-    st = res["stats"]
-    rep.coverage = dict(programs=st["programs"], disagreements_checked=st["disagreements_checked"],
-                        evaluations=st["ops"], distinct_nontrivial=res["distinct"],
-                        rule="generated programs over 1-3 keyspaces (plain / single-writer / optimistic databases), "
-                             "random placement of rotate/step/drain/major between operations; each operation's result is "
-                             "compared between implementation, model(as_is) and oracle(ideal); non-trivial = uses >= 4 "
-                             "distinct operation kinds, distinct by operation-kind sequence",
-                        samples=[progs[0].splitlines()[:12]], op_histogram=dict(res["ophist"]),
-                        known_finding_programs=st["known_finding_programs"],
-                        correspondence_failures=st.get("correspondence_failures", 0))
+    coverage(rep, res, progs,
+             "generated programs over 1-3 keyspaces (plain / single-writer / optimistic databases), random placement of "
+             "rotate/step/drain/major between operations; each operation's result is compared between implementation, "
+             "model(as_is) and oracle(ideal); non-trivial = uses >= 4 distinct operation kinds, distinct by operation-kind "
+             "sequence; the obligations counted are the PARTIAL theorems of props/C01.v",
+             dict(partial_theorems=THEOREMS))
 
 
 def replay(rep, path, build):
